@@ -46,6 +46,7 @@ type params struct {
 	RealTr   int           // >0: the client uses a real *http.Transport (the fake transport is registered for the scheme "fake") with MaxConnections(RealTr)
 	Second   bool          // a second Attack call on the same Attacker while the first is running
 	SecondN  int           // hits the second attack releases (0: its pacer stops at once)
+	JSONTgt  bool          // Cause tgterr: the targets come from the real (instrumented) lazy JSON targeter over ErrAt lines; it runs dry at call ErrAt and stays dry
 }
 
 func (p params) name() string {
@@ -85,6 +86,9 @@ func (p params) name() string {
 	}
 	if p.RealTr > 0 {
 		s += fmt.Sprintf(",realtransport,maxconns=%d", p.RealTr)
+	}
+	if p.JSONTgt {
+		s += ",lazy-json-targeter"
 	}
 	if p.Second {
 		s += ",two-attacks"
@@ -143,6 +147,7 @@ type world struct {
 	id         string // property being checked: only its own oracles are evaluated (plus engine-level deadlock/panic)
 	p          params
 	began      time.Duration
+	jsonTgt    vegeta.Targeter
 	started    int
 	startT     []time.Duration
 	delivered  []*vegeta.Result
@@ -237,6 +242,9 @@ func (w *world) targeter(t *vegeta.Target) error {
 	if w.p.ClockHit {
 		w.startT = append(w.startT, vsched.TimeNow().Sub(vsched.Base()))
 	}
+	if w.jsonTgt != nil {
+		return w.jsonTgt(t)
+	}
 	if w.p.Cause == "tgterr" && k == w.p.ErrAt {
 		if w.p.NoTgts {
 			return vegeta.ErrNoTargets
@@ -252,6 +260,9 @@ func (w *world) targeter(t *vegeta.Target) error {
 
 func (w *world) main() {
 	p := w.p
+	if p.JSONTgt {
+		w.jsonTgt = vegeta.NewJSONTargeter(strings.NewReader(strings.Repeat(`{"method":"GET","url":"http://h/"}`+"\n", p.ErrAt)), nil, nil)
+	}
 	var opts []func(*vegeta.Attacker)
 	if p.DNS {
 		opts = append(opts, vegeta.Client(&http.Client{Transport: &http.Transport{}}), vegeta.DNSCaching(time.Minute))
@@ -884,6 +895,18 @@ func c02Plans() []plan {
 			}
 			add(params{W0: uint64(c[0]), M: uint64(c[1]), N: c[2], Cause: "tgterr", ErrAt: k, NoTgts: true}, b)
 		}
+	}
+	// the same through the real lazy JSON targeter (which stays dry once it is): workers that are inside the
+	// targeter, or enter it later, when it runs dry
+	for _, c := range [][4]int{{2, 2, 2, 0}, {2, 2, 3, 1}, {1, 2, 3, 1}, {2, 2, 3, 2}, {2, 3, 4, 1}} {
+		b := -1
+		if c[2] >= 3 {
+			b = ev.Pick(1, 3)
+		}
+		if c[2] >= 4 && !th {
+			continue
+		}
+		add(params{W0: uint64(c[0]), M: uint64(c[1]), N: c[2], Cause: "tgterr", ErrAt: c[3], NoTgts: true, JSONTgt: true}, b)
 	}
 	// max-body set and a response whose tail is still in transit when everything else is done
 	add(params{W0: 1, M: 1, N: 1, Cause: "pacer", Trunc: true, SlowTail: true}, -1)
